@@ -72,6 +72,10 @@ def emu_verdict(status, stderr):
     return "crash:%s" % status
 
 
+import re as _re
+_WORK = _re.compile(r"/dev/shm/ovni-verif\.\d+/w\d+")
+
+
 def result(ok=True, vclass=None, sig=None, detail="", **kw):
     r = {"ok": ok, "vclass": vclass, "sig": sig or vclass, "detail": detail,
          "sim_ns": 0, "faults": {}, "probes": {}, "ihash": "", "nontrivial": False,
@@ -80,6 +84,9 @@ def result(ok=True, vclass=None, sig=None, detail="", **kw):
     if r["det"] is None:
         # deterministic part of the report (tool stderr carries wall-clock rates)
         r["det"] = r["detail"].split("\n--- tool stderr", 1)[0]
+    # scratch directories are numbered per process and per run
+    r["det"] = _WORK.sub("<work>", r["det"])
+    r["detail"] = _WORK.sub("<work>", r["detail"])
     return r
 
 
